@@ -243,6 +243,31 @@ def run(ctx):
     if not viols:
         chk.ok(Pl, q, 'retry loop', detail='every normal exit has an opened stream; FileNotFoundError re-enters loosen_object or raises')
 
+    # P-r0: every public key view answers through the funnel (which is where the fallback lives)
+    Pr0 = chk.rule('C04.Pr0', 'reader: every public key view (existence, metadata, content, streams) goes through the read funnel, i.e. through the loose-probe -> refresh -> re-query fallback', 8)
+    from .c02 import key_views_funnel_only
+    key_views_funnel_only(ctx, chk, Pr0, S)
+
+    # P-p4: the packer never rewinds or truncates a pack below bytes written earlier (only the tail of the object it is just writing)
+    Pp4 = chk.rule('C04.Pp4', 'packer: a pack handle is only rewound to a tell() of the same iteration and truncated without size (bytes a reader may be reading never change)', 1)
+    from .c13 import TargetMachine
+    from .common import specialisations
+    bad4 = False
+    for q4 in ('container:Container.pack_all_loose', 'container:Container.add_streamed_objects_to_pack'):
+        fn4 = prog.fn(q4)
+        combos4 = [{}] if q4.endswith('pack_all_loose') else list(specialisations(fn4, {}, free={'do_fsync', 'do_commit', 'open_streams', 'compress'}))
+        for consts in combos4:
+            g4 = ctx.icfg(q4, consts, pol, key='wp5')
+            m4 = TargetMachine(ctx, g4, rule='C04.Pp4x', rule3='C04.Pp4')
+            viols, st = solve(g4, m4)
+            chk.crash_points += st['pairs']
+            for v in viols:
+                if v.rule == 'C04.Pp4':
+                    bad4 = True
+                    chk.bad(Pp4, q4, v.node.text(100), v.msg + f' [flags {consts}]', where=v.node.where, witness=v.witness)
+    if not bad4:
+        chk.ok(Pp4, 'container:Container.add_streamed_objects_to_pack', 'seek/truncate sites on pack handles', detail='tail-only rewind (C13.R3 machine)')
+
     from .common import transaction_premises
     RDB = chk.rule('C04.Pdb', 'transaction premises: rows become visible to other connections only at COMMIT; WAL snapshots (explicit BEGIN, no autocommit, only PRAGMA journal_mode=wal)', 1)
     transaction_premises(ctx, chk, RDB)
